@@ -331,10 +331,18 @@ open KV.ReaderClose
 /-- **resources_released** — when Close has returned no fetcher goroutine, no group loop, no generation goroutine
 and no connection of the model is alive. -/
 theorem resources_released (g : Bool) (s : State) (hr : Reachable g s) (hc : s.close = 3) :
-    s.fetchers = 0 ∧ s.loop = 0 ∧ s.gen = false ∧ s.conns = 0 := by
+    s.fetchers = 0 ∧ s.loop = 0 ∧ s.gen = false ∧ s.conns = 0 ∧ s.lconns = 0 := by
   have hi := reachable_inv g s hr
   obtain ⟨h1, h2, h3, h4⟩ := hi.done hc
-  exact ⟨h1, h2, (hi.loop0 h2).2, h3⟩
+  exact ⟨h1, h2, (hi.loop0 h2).2.1, h3, (hi.loop0 h2).2.2⟩
+
+/-- **loop_exit_closes_connections** — whenever the group loop is not running (never started, or `run` has returned
+— after Close, through whatever path: LeaveGroup answered, rejected, failed, or no member id) no coordinator
+connection of the model is open: `coordinator()`, `nextGeneration` and `leaveGroup` close what they opened on
+every path. -/
+theorem loop_exit_closes_connections (g : Bool) (s : State) (hr : Reachable g s) (hl : s.loop = 0) :
+    s.lconns = 0 ∧ s.member = none :=
+  ⟨((reachable_inv g s hr).loop0 hl).2.2, ((reachable_inv g s hr).loop0 hl).1⟩
 
 /-- **left_group_on_close** — when Close has returned the group loop holds no member id any more … -/
 theorem left_group_on_close (g : Bool) (s : State) (hr : Reachable g s) (hc : s.close = 3) : s.member = none := by
@@ -353,8 +361,8 @@ theorem member_dropped_only_by (s s' : State) (e : Event) (m : Nat) (hs : step s
 LeaveGroup request and no new connection is possible. -/
 theorem nothing_sent_after_close (g : Bool) (s : State) (hr : Reachable g s) (hc : s.close = 3)
     (e : Event) (he : e.sends = true) : step s e = none := by
-  obtain ⟨h1, h2, h3, h4⟩ := resources_released g s hr hc
-  cases e <;> simp [Event.sends] at he <;> simp [step, h1, h2, h3, h4]
+  obtain ⟨h1, h2, h3, h4, h5⟩ := resources_released g s hr hc
+  cases e <;> simp [Event.sends] at he <;> simp [step, h1, h2, h3, h4, h5]
 
 /-- … and it stays that way: the closed state is absorbing for these counters -/
 theorem closed_stays_closed (g : Bool) (s s' : State) (e : Event) (hr : Reachable g s) (hc : s.close = 3)
@@ -395,7 +403,7 @@ CloseReturn is enabled, provided the coordinator/broker connections still open g
 C15's model (GroupRun); here the loop is one counter. -/
 theorem reader_close_progress_partial (g : Bool) (s : State) (hr : Reachable g s) (hc : s.close = 2) :
     ∃ e, (e = .closeReturn ∨ e = .closeMsgs ∨ e = .fetcherExit ∨ e = .genEnd ∨ e = .loopExit ∨ e = .connClose ∨
-      (∃ m, e = .leave m) ∨ e = .coordOpen) ∧ (step s e).isSome := by
+      e = .coordClose ∨ (∃ m, e = .leave m) ∨ e = .coordOpen) ∧ (step s e).isSome := by
   have hi := reachable_inv g s hr
   have hcl := hi.marked (by omega)
   by_cases hf' : ¬ s.fetchers = 0
@@ -404,7 +412,7 @@ theorem reader_close_progress_partial (g : Bool) (s : State) (hr : Reachable g s
   by_cases hl : s.loop = 0
   · by_cases hm : s.msgsClosed = true
     · by_cases hcn : s.conns = 0
-      · exact ⟨.closeReturn, by simp, by simp [step, hc, hm, hcn]⟩
+      · exact ⟨.closeReturn, by simp, by simp [step, hc, hm, hcn, (hi.loop0 hl).2.2]⟩
       · exact ⟨.connClose, by simp, by simp [step]; omega⟩
     · exact ⟨.closeMsgs, by simp, by simp [step, hc, hf, hl, hm]⟩
   · have hl1 : s.loop = 1 ∨ 2 ≤ s.loop := by omega
@@ -413,13 +421,15 @@ theorem reader_close_progress_partial (g : Bool) (s : State) (hr : Reachable g s
     · cases hmem : s.member with
       | none =>
         by_cases h1 : s.loop = 1
-        · exact ⟨.loopExit, by simp, by simp [step, h1, hcl, hgen, hmem]⟩
+        · by_cases hlc : s.lconns = 0
+          · exact ⟨.loopExit, by simp, by simp [step, h1, hcl, hgen, hmem, hlc]⟩
+          · exact ⟨.coordClose, by simp, by simp [step]; omega⟩
         · exact ⟨.fetcherExit, by simp, by
             -- loop is 0 or 1 in every reachable state; kept out of the invariant: fall back on coordOpen
             exfalso; exact absurd (reachable_loop_le g s hr) (by omega)⟩
       | some m =>
         by_cases h1 : s.loop = 1
-        · by_cases hcn : 0 < s.conns
+        · by_cases hcn : 0 < s.lconns
           · exact ⟨.leave m, by simp, by simp [step, h1, hgen, hmem, hcn]⟩
           · exact ⟨.coordOpen, by simp, by simp [step, h1]⟩
         · exfalso; exact absurd (reachable_loop_le g s hr) (by omega)
@@ -432,16 +442,16 @@ open KV.ReaderClose
 
 /-- work left on the closing side of a Reader -/
 def closeNu (s : State) : Nat :=
-  s.fetchers + s.conns + s.loop + (if s.gen then 1 else 0) + (if s.member.isSome then 1 else 0) +
+  s.fetchers + s.conns + s.lconns + s.loop + (if s.gen then 1 else 0) + (if s.member.isSome then 1 else 0) +
   (if s.msgsClosed then 0 else 1) + (3 - s.close)
 
 /-- the steps by which a Reader shuts down -/
 def closingStep : Event → Bool
-  | .closeMark | .closeMsgs | .closeReturn | .fetcherExit | .connClose | .genEnd | .leave _ | .loopExit => true
+  | .closeMark | .closeMsgs | .closeReturn | .fetcherExit | .connClose | .coordClose | .genEnd | .leave _ | .loopExit => true
   | _ => false
 
 /-- **reader_close_terminates** (Reader side) — every shut-down step of `Reader.Close` (stop mark, fetcher exit,
-connection close, generation end, LeaveGroup, exit of the group loop, close of `msgs`, return) strictly decreases
+connection close (fetcher and coordinator), generation end, LeaveGroup, exit of the group loop, close of `msgs`, return) strictly decreases
 `closeNu`, and while Close waits one of them (or the opening of the connection LeaveGroup needs) is enabled
 (`reader_close_progress_partial`).  The only events that can increase `closeNu` after the mark are connection opens:
 by a fetcher that is still alive (`dial`, bounded by `fetchers`: a cancelled fetcher does not redial) and by the
